@@ -4,6 +4,10 @@ Lean: ZI/Props/C17.lean.  Tie: the complete 64 x 64 grid of (interface signature
 req, opt in 0..3, *args?, **kw?, as plain function, bound method and class verification, plus random multi-member
 interfaces (own and inherited names, attributes and methods, missing / opaque / non-callable / property candidates,
 declared or not, tentative or not) — result, failure list and messages compared with the model on both twins.
+Parameter NAMES are a dimension of their own (the contract is about call shapes, the model has no names): by role (`a…`
+required, `b…` defaulted: names coincide only where the default-ness does), by position (`p0, p1, …`: the implementation
+spells the interface's parameter list verbatim while its defaults, *args, **kw differ — the complete 64 x 64 grid again),
+and the same names in the opposite order.
 Oracle (inside the executor, independent of verify.py): inspect.signature(impl).bind on every admitted call shape."""
 import itertools
 
@@ -30,11 +34,22 @@ def gen_lines(rnd, tier):
             # a method whose self has a default as well
             L.append("verify|o|1|0|1:M%s:D0.%d.%d.%d|0" % (si, o, v, k))
             L.append("verify|c|1|0|1:M%s:D0.%d.%d.%d|0" % (si, o, v, k))
+    # the complete grid once more with the parameters named by position on both sides: wherever the two signatures have a
+    # positional parameter in common it has the SAME name, whatever its default-ness (the usual way to write an
+    # implementation: copy the interface's parameter list).  quick: the candidate kind rotates over the grid
+    for i, si in enumerate(SIGS):
+        for j, sc in enumerate(SIGS):
+            kinds = ("o:F", "o:G", "c:G") if tier == "thorough" else (("o:F", "o:G", "c:G")[(i + j) % 3],)
+            for kd in kinds:
+                L.append("verify|%s|1|0|1:M%sp:%s%sp|0" % (kd[0], si, kd[2], sc))
+        for o, v, k in itertools.product(range(3), (0, 1), (0, 1)):
+            L.append("verify|%s|1|0|1:M%sp:D0.%d.%d.%dp|0" % ("oc"[(i + o + v + k) % 2], si, o, v, k))
     n = {"quick": 1500, "thorough": 40000}[tier]
     for _ in range(n):
         vt = rnd.choice("oc")
         k = rnd.randint(1, 5)
         elems = []
+        inaming = rnd.choice(["", "p"])            # how the interface's methods name their parameters
         for j in range(1, k + 1):
             if rnd.random() < 0.3:
                 d = "A"
@@ -51,6 +66,11 @@ def gen_lines(rnd, tier):
                     c = ("G" if vt == "c" else rnd.choice("FG")) + rnd.choice(SIGS)
                 else:
                     c = rnd.choice(["B", "N", "P"])
+                d += inaming
+                if c[0] in "FG":
+                    # the implementation's names: the interface's own (verbatim over the common positions), the same
+                    # names permuted, or unrelated ones (the other scheme)
+                    c += rnd.choice(["p", "p", "p", "q", ""]) if inaming else rnd.choice(["", "", "", "p", "q"])
             elems.append("%d%s:%s:%s" % (j, "z" if rnd.random() < 0.15 else "", d, c))
         if k >= 2 and rnd.random() < 0.3:
             # verified, then an ancestor is given a further base that brings the first `nextra` members, then verified again
@@ -91,6 +111,7 @@ def to_model(line):
     for e in f[4].split(";"):
         n, d, c = e.split(":")
         n = n.rstrip("z")            # listed under an alias: the contract is about the listed name
+        d, c = d.rstrip("pq"), c.rstrip("pq")            # parameter names: the model (call shapes, arities) has none
         if c == "P" and f[1] == "o":
             c = "N"            # on an instance the property has been evaluated: a plain (non-callable) value
         if d == "A" and c != "X":
@@ -111,6 +132,32 @@ class _Null:
         pass
 
 
+def count_naming(chk, line):
+    """evidence for the parameter-naming dimension: how the implementation's positional names relate to the interface's"""
+    for e in line.split("|")[4].split(";"):
+        n, d, c = e.split(":")
+        if d[0] != "M" or c[0] not in "FGD":
+            continue
+        dn, cn = d[-1] if d[-1] in "pq" else "", c[-1] if c[-1] in "pq" else ""
+        (ri, oi, vi, ki), (rc, oc, vc, kc) = [tuple(int(x) for x in t.rstrip("pq")[1:].split(".")) for t in (d, c)]
+        if c[0] == "D":
+            rc, oc = 0, oc            # what is left once the defaulted self is dropped
+        if dn and dn == cn:
+            chk.count("names_verbatim")
+            if ri + oi == rc + oc:
+                chk.count("names_verbatim_same_parameter_list")
+                if (ri, oi) != (rc, oc):
+                    chk.count("names_verbatim_same_parameter_list_other_defaults")
+                    if (vi, ki) == (vc, kc):
+                        chk.count("names_verbatim_same_list_same_stars_" + ("more" if rc > ri else "fewer") + "_required")
+        elif dn and cn:
+            chk.count("names_permuted")
+        elif dn or cn:
+            chk.count("names_unrelated")
+        else:
+            chk.count("names_by_role")
+
+
 def judge(chk, lines, outs):
     bad = []
     for i, (l, o) in enumerate(zip(lines, outs)):
@@ -119,6 +166,7 @@ def judge(chk, lines, outs):
             continue
         got, want = o.split(" || ")
         chk.count("verifications_judged")
+        count_naming(chk, l)
         if "ORDER-MISMATCH" in want:
             bad.append((i, "%s: namesAndDescriptions(all=True) does not list inherited names first then own names in definition order: %s" % (l, want)))
             continue
@@ -144,9 +192,12 @@ def check(tier):
     lines = gen_lines(rnd, tier)
     model = run_model(lines)
     divs, fails = [], []
-    for m in ("c", "py"):
+    modes = ("c", "py")
+    outs = runner.run_impl_parallel("verify", lines, [(m, ()) for m in modes])            # the two twins side by side
+    for m, out in zip(modes, outs):
         try:
-            out = core.run_impl("verify", lines, m)
+            if isinstance(out, core.ImplBroken):
+                raise out
         except core.ImplBroken as e:
             divs.append(dict(mode=m, index=-1, line="", impl="<implementation could not be run: %s>" % str(e)[-1200:], model="", script=[], label="verify"))
             continue
@@ -168,12 +219,13 @@ def check(tier):
         runner.report_divergences(chk, divs, "verification-layer correspondence (ZI.Verify.verify / incompat vs verify.py); theorems C17_incompat_iff, C17_verify, C17_errors",
                                   "inspect.signature.bind oracle accepted all %d verifications" % chk.counters.get("verifications_judged", 0))
         core.lean_failure_violation(chk)
-    chk.samples.extend([lines[5], lines[7000], lines[-1]])
+    chk.samples.extend([lines[5], lines[7000], next(l for l in lines if l.endswith("p|0")), lines[-1]])
     return chk.finish(len(lines) * 2, chk.counters.get("multiple_failures", 0),
                       "COMPLETE grid of 64 x 64 (interface, implementation) signature pairs (req, opt in 0..3, *args?, **kw?) x {function attribute, bound method, "
                       "class verification} + random multi-member interfaces with inherited names, attributes, missing / opaque / non-callable / property candidates, "
-                      "declared?/tentative?; both twins; distinct_nontrivial = verifications that must report several failures at once",
-                      dict(exhaustive_part="all 4096 signature pairs x 3 candidate kinds"))
+                      "declared?/tentative?; parameter names by role / by position (interface's list spelled verbatim: complete grid again) / permuted; both twins; distinct_nontrivial = verifications that must report several failures at once",
+                      dict(exhaustive_part="all 4096 signature pairs x 3 candidate kinds (names by role); all 4096 pairs again with the parameters named by position "
+                                           "on both sides (quick: candidate kind rotating; thorough: x 3 kinds)"))
 
 
 def replay(path):
